@@ -422,6 +422,7 @@ def recvBad (r : RecvWindow) (h : Hdr) (payload : List Nat) (mtu : Nat) : Bool :
   || r.level == 0
   || (h.getMsgLen.isSome && r.remMsgLen > 0)
   || fitsButNotFinal h mtu
+  || orphanSegment r h
   || decide (r.startRem h.getMsgLen < payload.length)
   || (!h.fin && !payload.isEmpty && r.startRem h.getMsgLen - payload.length == 0)
   || (h.fin && r.startRem h.getMsgLen - payload.length > 0)
@@ -460,13 +461,15 @@ theorem acceptIncoming_cases {w : Nat} (hw : w ≤ 255) {r : RecvWindow} (hri : 
         exact ⟨hb.1, by omega⟩
     have h8' : decide (ringFree r.buf < (sduPrefix h.getMsgLen).length + p.length) = false := by simp; omega
     unfold recvBad
-    rw [h1, h2', h3', h4, h5', h6', h7', h8']; rfl
+    rw [h1, h2', h3', h4, acceptIncoming_not_orphan hr, h5', h6', h7', h8']; rfl
   | error e =>
     left
     have c := recvAccept_clean w hw r hri h hh p mtu now
     rw [hr] at c
     simp only [Clean] at c
     unfold RecvWindow.acceptIncoming at hr
+    split at hr
+    · rename_i hc; cases hr; exact ⟨by simp [recvBad, hc], rfl⟩
     split at hr
     · rename_i hc; cases hr; exact ⟨by simp [recvBad, hc], rfl⟩
     split at hr
@@ -640,7 +643,7 @@ theorem spec_matches_code (s : Session) (hs : SInv s) (h : Hdr) (hh : h.Wf) (hhs
     (rw [Bool.eq_iff_iff]; by_cases hml : 0 < msgLen <;>
       simp [recvBad, Spec.noRoom, Spec.badFlags, Spec.badLength, Spec.expected, Spec.isAckOnly,
         viewOf, RecvWindow.checkDataIntegrity, Hdr.getOpcode, Hdr.isStandaloneAck, Hdr.getMsgLen, Hdr.getAck,
-        Hdr.getSeq, Hdr.len, fitsButNotFinal, RecvWindow.startRem, sduPrefix, hpe, hn, hml] <;> (constructor <;> intro hx <;> omega))
+        Hdr.getSeq, Hdr.len, fitsButNotFinal, orphanSegment, RecvWindow.startRem, sduPrefix, hpe, hn, hml] <;> (constructor <;> intro hx <;> omega))
 
 /-- **A data segment is refused with `InvalidData` exactly when it violates the protocol
 (`Spec.mustReject` on the protocol-level view of the state) or does not fit the receive buffer
